@@ -493,6 +493,20 @@ pub fn check_main(args: &[String]) -> i32 {
                 continue;
             }
             let Ok(sc) = serde_json::from_value::<Scenario>(v["scenario"].clone()) else { continue };
+            // a recorded schedule, when the finding needs a rare one
+            if let Ok(tapes) = serde_json::from_value::<Tapes>(v["tapes"].clone()) {
+                jobs.push(Job {
+                    prop: prop.clone(),
+                    seed,
+                    run: 1_000_000 + (wi as u64) * 100 + 99,
+                    tapes: Some(tapes),
+                    want_tapes: false,
+                    want_scenario: false,
+                    cpu: None,
+                    oracle: None,
+                    scenario: Some(sc.clone()),
+                });
+            }
             for k in 0..6u64 {
                 jobs.push(Job {
                     prop: prop.clone(),
@@ -723,11 +737,24 @@ pub fn replay_main(args: &[String]) -> i32 {
             return 2;
         }
     };
-    let job = job_with_tapes(&rf.property, rf.seed, rf.run, rf.tapes.clone());
+    let mut job = job_with_tapes(&rf.property, rf.seed, rf.run, rf.tapes.clone());
     let mut slot = None;
-    let rep = run_on(&mut slot, 0, &job);
+    let mut rep = run_on(&mut slot, 0, &job);
     if let Some(w) = slot.take() {
         w.kill();
+    }
+    // the workload tape decodes to the recorded scenario as long as the generators are the ones
+    // that wrote the file; after a change of the generators the recorded scenario is used as it is
+    if let (Some(rec), Some(now)) = (&rf.scenario, &rep.scenario) {
+        if serde_json::to_string(rec).ok() != serde_json::to_string(now).ok() {
+            println!("note: the workload generators changed since this file was written; replaying the recorded scenario");
+            job.scenario = Some(rec.clone());
+            let mut slot = None;
+            rep = run_on(&mut slot, 0, &job);
+            if let Some(w) = slot.take() {
+                w.kill();
+            }
+        }
     }
     println!("replay property={} run={} verdict={} steps={} log_hash={:016x} (recorded {:016x})", rf.property, rf.run, rep.verdict, rep.steps, rep.log_hash, rf.log_hash);
     println!("scenario: {}", rep.brief);
